@@ -31,6 +31,7 @@ def run(ctx):
     gridfun.evaluate_rules(ctx)
     gridfun.repo_lints(ctx)
     spaces.coefficient_maps(ctx)
+    sparse.mass_matrices(ctx)
     rules.factory_sites(ctx, "boundary", only_files=("sparse.py",), rule_id="FACTORY-SPARSE")
     # constants are annihilated by Laplace-Beltrami: reference P1 gradients sum to zero
     r = ctx.rule("REFGRAD-SUM", "reference P1 gradients sum to zero over the three functions (Laplace-Beltrami annihilates constants)", 1)
